@@ -553,11 +553,16 @@ class BasicContiguousVector<cntgs::Options<Option...>, Parameter...>
         // comparing the whole buffer is only correct when it holds no padding bytes
         if constexpr (ListTraits::IS_EQUALITY_MEMCMPABLE && alignof(StorageElementType) == 1)
         {
+            // equal bytes only mean equal vectors when they are split into the same elements and fields
+            if (size() != other.size())
+            {
+                return false;
+            }
             if (empty())
             {
-                return other.empty();
+                return true;
             }
-            if (other.empty())
+            if (!equal_fixed_sizes(other, std::make_index_sequence<ListTraits::CONTIGUOUS_FIXED_SIZE_COUNT>{}))
             {
                 return false;
             }
@@ -568,6 +573,13 @@ class BasicContiguousVector<cntgs::Options<Option...>, Parameter...>
             return std::equal(begin(), end(), other.begin(), other.end());
         }
     }
+
+    template <class Other, std::size_t... I>
+    constexpr bool equal_fixed_sizes([[maybe_unused]] const Other& other, std::index_sequence<I...>) const noexcept
+    {
+        return ((get_fixed_size<I>() == other.template get_fixed_size<I>()) && ...);
+    }
+
     template <class... TOption>
     constexpr auto lexicographical_compare(
         const cntgs::BasicContiguousVector<cntgs::Options<TOption...>, Parameter...>& other) const
@@ -575,21 +587,22 @@ class BasicContiguousVector<cntgs::Options<Option...>, Parameter...>
         if constexpr (ListTraits::IS_LEXICOGRAPHICAL_MEMCMPABLE && ListTraits::IS_FIXED_SIZE_OR_PLAIN &&
                       alignof(StorageElementType) == 1)
         {
-            if (empty())
+            // comparing the whole buffers equals comparing element by element only if both are split alike
+            if (equal_fixed_sizes(other, std::make_index_sequence<ListTraits::CONTIGUOUS_FIXED_SIZE_COUNT>{}))
             {
-                return !other.empty();
+                if (empty())
+                {
+                    return !other.empty();
+                }
+                if (other.empty())
+                {
+                    return false;
+                }
+                return detail::trivial_lexicographical_compare(data_begin(), data_end(), other.data_begin(),
+                                                               other.data_end());
             }
-            if (other.empty())
-            {
-                return false;
-            }
-            return detail::trivial_lexicographical_compare(data_begin(), data_end(), other.data_begin(),
-                                                           other.data_end());
         }
-        else
-        {
-            return std::lexicographical_compare(begin(), end(), other.begin(), other.end());
-        }
+        return std::lexicographical_compare(begin(), end(), other.begin(), other.end());
     }
 
     constexpr iterator make_iterator(const const_iterator& it) noexcept { return {*this, it.index()}; }
